@@ -26,6 +26,15 @@ PROPS = {
         "assumptions": ["topic lists are non-empty (the HTTP handlers reject empty ones)", "no subscriber is added while connected",
                         "topics are valid UTF-8 (decode iterates runes; on valid UTF-8 bytes 0x00/0x01 occur only as U+0000/U+0001)"],
     },
+    "C10": {
+        "stages": [{"kind": "cases", "name": "retention", "driver": "C10", "n": {"quick": 600, "thorough": 6000}}],
+        "rule": "publish sequences (1-40) on a real BoltTransport with size 0-12, cleanup frequency in {0, 0.3, 0.5, 0.9, 1}, payloads 10 B-8 KiB "
+                "(inline bucket / one leaf / several pages), close+reopen between publishes with probability 0.15; after every publish the retained ids are "
+                "read back through an 'earliest' replay; each step must be one of the model's two outcomes (cleanup ran / did not run) and satisfy the window "
+                "predicate. non-trivial = more publishes than size (size>0) or a cleanup that had to delete several keys at once",
+        "trusted": ["bbolt by contract (ordered map, durable per-bucket sequence); the trigger's random draw is observed, not predicted"],
+        "assumptions": ["fewer than 1000 retained updates per case (observation goes through one subscriber's buffer)"],
+    },
     "C11": {
         "stages": [{"kind": "cases", "name": "lookups", "driver": "C11", "n": {"quick": 1500, "thorough": 20000}}],
         "rule": "sequences of 5-30 (topic, selector) lookups, and 2-4 goroutines sharing one store, against stores without cache, of size 0, tiny "
